@@ -59,15 +59,41 @@ def spell(ver, minor, g, order=None):
     return prefix(ver, minor) + "/".join("%s:%s" % (m, g[m]) for m in order if m in g)
 
 
+GROUPS = {"2": [ORDER["2"][:6], ORDER["2"][6:9], ORDER["2"][9:]],
+          "3": [ORDER["3"][:8], ORDER["3"][8:11], ORDER["3"][11:14], ORDER["3"][14:]],
+          "4": [ORDER["4"][:11], ["E"], ["CR", "IR", "AR"], ORDER["4"][15:26], ORDER["4"][26:]]}
+
+
+def some_order(rnd, ver, g):
+    """field order: canonical, uniformly shuffled, or one of the *structured* orders a person or a tool would produce (reversed,
+    alphabetical, metric groups permuted with the order inside each group kept) - order assumptions hide behind those"""
+    canon = [m for m in ORDER[ver] if m in g]
+    k = rnd.random()
+    if k < 0.3:
+        return canon
+    if k < 0.6:
+        o = list(canon)
+        rnd.shuffle(o)
+        return o
+    if k < 0.68:
+        return canon[::-1]
+    if k < 0.76:
+        return sorted(canon)
+    groups = [list(x) for x in GROUPS[ver]]
+    head, rest = groups[0], groups[1:]
+    rnd.shuffle(rest)
+    if rnd.random() < 0.2:
+        rest.insert(rnd.randrange(len(rest) + 1), head)
+        head = []
+    return [m for grp in [head] + rest for m in grp if m in g]
+
+
 def random_vector(rnd, ver, shuffle=0.5, **kw):
     g = random_assignment(rnd, ver, **kw)
+    if rnd.random() < 0.3:                      # no explicit Not Defined at all
+        g = dict((m, v) for m, v in g.items() if v != ND[ver])
     minor = rnd.choice([0, 1]) if ver == "3" else -1
-    order = list(g)
-    if rnd.random() < shuffle:
-        rnd.shuffle(order)
-    else:
-        order = [m for m in ORDER[ver] if m in g]
-    return ver, minor, g, spell(ver, minor, g, order)
+    return ver, minor, g, spell(ver, minor, g, some_order(rnd, ver, g))
 
 
 def covering_vectors(rnd, ver):
@@ -184,6 +210,25 @@ def arbitrary_text(rnd, n):
 SCORE_SPELLINGS = ["{t}", "{t}0", "0{t}", "+{t}", " {t}", "{t} ", "{t}e0", "{m}e-1", "{m}E-1", "{m}e-01", "{t}_", "_{t}", "{i}_{f}",
                    "-{t}", "{t}.0", "{t},0", "", "nan", "inf", "-inf", "NaN", "Infinity", "0x7", "{i}", "{i}.", ".{f}", "1e1", "10", "10.", "1_0.0",
                    "1__0.0", "-0.0", "0", "-0", "00.0", "{t}e", "e1", ".", "+", "{t}f", "{i}.{f}00000"]
+
+
+def rh_structural(rnd, vectors, per_kind=6):
+    """structural corner cases of <score>/<vector>: empty parts, white space (incl. line breaks) around or inside either part,
+    several slashes, with the right and with a wrong score"""
+    out = []
+    ws = [" ", "\t", "\n", "\r\n", "\x0b", "\x0c"]
+    for ver in "234":
+        pool = [v for v in vectors if v[0] == ver and v[2] is not None]
+        for _ in range(per_kind):
+            _, s, base = rnd.choice(pool)
+            for t in (base, (base + 1) % 101):
+                sc = "%d.%d" % (t // 10, t % 10)
+                w = rnd.choice(ws)
+                p = rnd.randrange(1, len(s))
+                out += [(ver, sc + "/"), (ver, sc), (ver, "/" + s), (ver, sc + "//" + s), (ver, sc + "/" + s + w), (ver, sc + "/" + w + s),
+                        (ver, sc + w + "/" + s), (ver, w + sc + "/" + s), (ver, sc + "/" + s[:p] + w + s[p:]), (ver, sc[:1] + w + sc[1:] + "/" + s),
+                        (ver, sc + "/" + s + "/"), (ver, sc + "/" + s + "/" + sc), (ver, sc + "\n/" + s + "\n"), (ver, "/"), (ver, "")]
+    return out
 
 
 def rh_strings(rnd, n, vectors):
